@@ -710,6 +710,26 @@ func (cfg *Config) wordFields(wps []syntax.WordPart) ([][]fieldPart, error) {
 		fields = append(fields, curField)
 		curField = nil
 	}
+	// wsDelim is set when IFS whitespace has just ended a field;
+	// a non-whitespace IFS character which follows is part of the same
+	// delimiter rather than the end of one more, empty, field.
+	wsDelim := false
+	delim := func(r rune) {
+		if cfg.ifsWhitespace(r) {
+			if len(curField) > 0 {
+				wsDelim = true
+			}
+			flush()
+		} else if wsDelim && len(curField) == 0 {
+			wsDelim = false
+		} else {
+			// A non-whitespace IFS character ends a field
+			// even if that field is empty.
+			wsDelim = false
+			fields = append(fields, curField)
+			curField = nil
+		}
+	}
 	splitAdd := func(val string) {
 		fieldStart := -1
 		for i, r := range val {
@@ -718,7 +738,7 @@ func (cfg *Config) wordFields(wps []syntax.WordPart) ([][]fieldPart, error) {
 					curField = append(curField, fieldPart{val: val[fieldStart:i]})
 					fieldStart = -1
 				}
-				flush()
+				delim(r)
 			} else {
 				if fieldStart < 0 { // starting a new field
 					fieldStart = i
@@ -798,14 +818,31 @@ func (cfg *Config) wordFields(wps []syntax.WordPart) ([][]fieldPart, error) {
 				part.quote = quoteDouble
 				curField = append(curField, part)
 			}
+			if len(wfield) == 0 {
+				// An empty quoted string still starts or continues a field,
+				// which a delimiter in a later expansion may end.
+				curField = append(curField, fieldPart{quote: quoteDouble})
+			}
 		case *syntax.ParamExp:
 			if elems, ok := cfg.unquotedElemFields(wp); ok {
 				// Unquoted "*" or "@" expansions produce one field per
 				// element; joining and re-splitting them would lose
 				// fields when IFS is empty.
+				if len(elems) > 0 && len(curField) == 0 {
+					// Like bash, leading IFS whitespace in the list
+					// is part of the delimiter which may follow it.
+					r, _ := utf8.DecodeRuneInString(elems[0])
+					wsDelim = cfg.ifsWhitespace(r)
+				}
 				for j, elem := range elems {
 					if j > 0 {
-						flush()
+						// The elements are split as if joined by
+						// the first character of IFS.
+						if sep, _ := utf8.DecodeRuneInString(cfg.ifs); cfg.ifs != "" {
+							delim(sep)
+						} else {
+							flush()
+						}
 					}
 					splitAdd(elem)
 				}
